@@ -25,8 +25,16 @@ import (
 
 var uniqRe = regexp.MustCompile(`-u[0-9a-f]{10}`)
 
-func compileArtifacts(src string, dir string) map[string]string {
-	out := map[string]string{}
+func compileArtifacts(src string, dir string) (out map[string]string) {
+	out = map[string]string{}
+	// the compiler runs inside the worker: a panic of the compiler on one of the
+	// (deliberately broken) texts must not take the worker down; it is an artefact
+	// like any other error (and C08's business, not C10's)
+	defer func() {
+		if p := recover(); p != nil {
+			out = map[string]string{"error": fmt.Sprintf("COMPILER PANIC: %T %v", p, p)}
+		}
+	}()
 	post, _, ast, err := syntax.ParseSourceBytes([]byte(src), filepath.Join(dir, "pipeline.mro"), []string{dir}, false)
 	if err != nil {
 		out["error"] = err.Error()
@@ -166,8 +174,11 @@ func c10Case(c *Ctx) {
 			vrt.S.MapMode, vrt.S.MapSalt = mode, salt+uint64(i)*7919
 			art := compileArtifacts(text, dir)
 			c.Res.Probes["compilations"]++
-			if _, isErr := art["error"]; isErr {
+			if e, isErr := art["error"]; isErr {
 				c.Res.Probes["error-texts-compared"]++
+				if strings.HasPrefix(e, "COMPILER PANIC") {
+					c.Res.Probes["compiler-panics-on-broken-text"]++
+				}
 			}
 			desc := fmt.Sprintf("map order mode %d salt %d", mode, vrt.S.MapSalt)
 			if ref == nil {
